@@ -198,6 +198,14 @@ func (x *Exec) appendGeneric(s *State, base Val, n string, et, rt types.Type, po
 	old := b.backing(et, base.Ref)
 	var arrs []string
 	for i, l := range leavesOf(et) {
+		if base.Off == "0" {
+			// the copy of a slice starting at index 0: the new store equals the old one on [0,len);
+			// cells beyond len are unobservable garbage (reslicing past len after append is not modelled
+			// as zero memory) - take the old array as a whole, no quantifier needed
+			x.eng.note("append reallocation of a slice with offset 0 reuses the old array term for cells beyond len (fresh memory is zero in Go)")
+			arrs = append(arrs, old[i])
+			continue
+		}
 		na := x.eng.fresh("app.arr", arrSort(l.sort))
 		x.eng.innerTypingAxiom(na, l.typ)
 		if cnt, ok := isNumLit(base.Len); ok && cnt.IsInt64() && cnt.Int64() <= 16 {
@@ -218,9 +226,20 @@ func (x *Exec) appendGeneric(s *State, base Val, n string, et, rt types.Type, po
 	tmp := types.NewVar(token.NoPos, nil, "appres", rt)
 	a.env[tmp], b.env[tmp] = ra, rb
 	// both a and b may be statically impossible; mergeStates handles the general case
+	preBacking := s.backing(et, base.Ref) // element arrays of the old slice, before the append
 	m := x.mergeStates(anc, []*State{a, b})
 	res := m.env[tmp]
 	delete(m.env, tmp)
+	// redundant but useful fact (it follows from both paths): the first len elements are preserved.
+	// Stated over a plain index variable so that E-matching finds it without arithmetic in the pattern.
+	if _, isLit := isNumLit(base.Len); !isLit || base.Len != "0" {
+		post := m.backing(et, res.Ref)
+		for i := range post {
+			j := "j!ap"
+			m.assume(sf("(forall ((%s Int)) (! (=> (and (<= %s %s) (< %s (+ %s %s))) (= (select %s %s) (select %s (+ (- %s %s) %s)))) :pattern ((select %s %s))))",
+				j, res.Off, j, j, res.Off, base.Len, post[i], j, preBacking[i], j, res.Off, base.Off, post[i], j))
+		}
+	}
 	*s = *m
 	return res
 }
